@@ -81,3 +81,30 @@ Definition names_okb (h : heap) : bool :=
 
 (* the domain of the program theorems, for one decoded case *)
 Definition program_in_scope (h : heap) (bs : list block) : bool := wf_heapb h && forallb (block_okb h) bs.
+
+(* ------------------------------------------------------------------ the domain of the in-place theorems *)
+(* the tensor objects held by the modules *)
+Definition opt_objs (d : list (string * option obj)) : list obj :=
+  flat_map (fun e => match snd e with Some o => [o] | None => [] end) d.
+Definition node_objs (n : mnode) : list obj := opt_objs (m_params n) ++ opt_objs (m_bufs n) ++ map snd (m_attrs n).
+Definition heap_objs (h : heap) : list obj := flat_map (fun e => node_objs (snd e)) h.
+
+(* no two distinct tensor objects of the module tree share an identity or a storage (the complement is D137), every one
+   has a content, the allocator's next storage lies above everything in use *)
+Definition tidyb (st : tstate) : bool :=
+  let os := heap_objs (t_heap st) in
+  forallb (fun a => forallb (fun b => implb ((oid a =? oid b)%Z || (ostor a =? ostor b)%Z) (obj_eqb a b)) os) os
+  && forallb (fun o => (ostor o <? t_next st)%Z && match val_of st o with Some _ => true | None => false end) os
+  && forallb (fun e => (fst e <? t_next st)%Z) (t_vals st).
+
+Definition inplace_okb (b : block) : bool :=
+  negb (b_usd b) && (match b_inplace b with Some true => true | _ => false end) && negb (b_manual b).
+Definition block_ok2b (h : heap) (b : block) : bool := block_okb h b || inplace_okb b.
+
+(* a non-empty program of in-place with-blocks (any nesting, any targets) on a tidy state: the domain of
+   C13_restore_inplace_programs; with one block, of C13_inplace_contents_partial *)
+Definition inplace_block_domainb (st : tstate) (bs : list block) : bool :=
+  match bs with
+  | [] => false
+  | _ => forallb (fun b => inplace_okb b && negb (b_swap_dest b)) bs && tidyb st && wf_heapb (t_heap st)
+  end.
